@@ -6,7 +6,13 @@
      R start|t v bytes|…|n|r bytes|…   t = serde's verdict on a line (v = -1: error, else record id); n = next
                                   session; r = one serialised record -> "<file>|ERR" or "<file>|ids"
                                   (<file> = its bytes, or "#len:hash" above 1500 bytes)
-     M l k,w cps,w cps|c id|…   -> summarize: "T=n K=k:n,… C=id W=cps.cps:n,…" (maps sorted) *)
+     M l k,w cps,w cps|c id|…   -> summarize: "T=n K=k:n,… C=id W=cps.cps:n,…" (maps sorted)
+     J bytes                    -> one real record line through the model's reader of the concrete Record (C19Record.v):
+                                   "N" (rejected) | "<1|0> k=<lint kind index|999> w=<cps.cps,…> n=<bytes.bytes,…>"
+                                   1 = the model's writer prints the record it read exactly as that line;
+                                   w = contents of the Word(None) tokens; n = the texts of the Number values
+     Q bytes|bytes|…            -> the lines as a log through the model's read + summarize over the modelled records:
+                                   "ERR" | "T=n K=k:n,… C=key cps.cps=v;… W=cps.cps:n,…" (v: 0 false, 1 true, 2 null) *)
 let field_body s = if String.length s <= 1 then "" else String.sub s 1 (String.length s - 1)
 let bytes_line (bs : n list) : string = line_of_text bs
 let digest (bs : n list) : string =
@@ -80,4 +86,24 @@ let () =
           (String.concat "," (List.map (fun (k, c) -> Printf.sprintf "%d:%d" k c) ks))
           (int_of_n s.final_config)
           (String.concat "," (List.map (fun (w, c) -> Printf.sprintf "%s:%d" w c) ws))
+    | 'J' ->
+        let dots t = String.concat "." (List.map (fun x -> string_of_int (int_of_n x)) t) in
+        (match run_record_line (text_of_line body) with
+         | None -> print_endline "N"
+         | Some (same, (k, (ws, ns))) ->
+             Printf.printf "%d k=%d w=%s n=%s\n" (if same then 1 else 0) (int_of_nat k)
+               (String.concat "," (List.map dots ws)) (String.concat "," (List.map dots ns)))
+    | 'Q' ->
+        let dots t = String.concat "." (List.map (fun x -> string_of_int (int_of_n x)) t) in
+        let ls = List.map text_of_line (List.filter (fun f -> String.length f > 0) (split_on '|' body)) in
+        (match run_log_summary ls with
+         | None -> print_endline "ERR"
+         | Some s ->
+             let ks = List.sort compare (List.map (fun (k, c) -> (int_of_nat k, int_of_nat c)) s.lint_counts) in
+             let ws = List.sort compare (List.map (fun (w, c) -> (dots w, int_of_nat c)) s.misspelled) in
+             let cfg = List.map (fun (k, v) -> dots k ^ "=" ^ (match v with None -> "2" | Some true -> "1" | Some false -> "0")) s.final_config in
+             Printf.printf "T=%d K=%s C=%s W=%s\n" (int_of_nat s.total_applied)
+               (String.concat "," (List.map (fun (k, c) -> Printf.sprintf "%d:%d" k c) ks))
+               (String.concat ";" cfg)
+               (String.concat "," (List.map (fun (w, c) -> Printf.sprintf "%s:%d" w c) ws)))
     | _ -> print_endline "?")
